@@ -342,6 +342,41 @@ class H7(Case):
         return obs
 
 
+class H8(Case):
+    """input parsing: with process tensors of different lengths and no num_steps the shortest one bounds the
+    computation; dt is taken from the process tensors; the longer tensor is closed with ITS cap of that step"""
+    functions = ("system_dynamics._compute_dynamics_input_parse", "system_dynamics.compute_dynamics")
+    env = {"noconj": True}
+
+    def __init__(self, N, extra, trivial=False):
+        self.N, self.extra, self.trivial = N, extra, trivial
+        self.id = "H8/mixed_lengths_N%d_plus%d%s" % (N, extra, "_trivial" if trivial else "")
+        self.bounds = {"d": 2, "lengths": [N, N + extra], "bond": 2, "trivial_pt_in_list": trivial}
+        self.timeout_s = 300
+
+    def run(self, inp):
+        d, N = 2, self.N
+        pt_a, M_a, c_a = build_pt(inp, "a", d, N, 2, 4, False, dt=0.25)
+        pt_b, M_b, c_b = build_pt(inp, "b", d, N + self.extra, 2, 3, False, dt=0.25)
+        L = N + self.extra
+        P1 = [lib.gen_prop(inp, "p%d" % k, d) for k in range(L)]
+        P2 = [lib.gen_prop(inp, "q%d" % k, d) for k in range(L)]
+        rho0 = inp.arr("r", (d, d))
+        pts = [pt_b, pt_a]
+        envs = [(M_b, c_b), (M_a, c_a)]
+        if self.trivial:
+            pts = [pt_b, ptm.TrivialProcessTensor(hilbert_space_dimension=d), pt_a]
+        system = lib.FakeSystem(d, P1, P2)
+        dyn = sd.compute_dynamics(system, initial_state=rho0, process_tensor=pts, start_time=0.5, progress_type="silent")
+        st = lib.dynamics_states(dyn)
+        obs = [Ob.holds("shortest process tensor bounds the number of steps", len(st) == N + 1),
+               Ob.holds("dt from the process tensors reaches the system", system.calls == [(0.25, 0.5)]),
+               Ob.holds("time labels", list(dyn._times) == [0.5 + 0.25 * k for k in range(N + 1)])]
+        for n in range(min(len(st), N + 1)):
+            obs.append(Ob.eq("state at step %d" % n, st[n], lib.oracle_pt_dynamics(rho0, envs, P1, P2, n).reshape(d, d)))
+        return obs
+
+
 class H4(Case):
     """vec(A rho B) = (A (x) B^T) vec(rho) conventions"""
     functions = ("operators.commutator", "operators.acommutator", "operators.left_super", "operators.right_super",
@@ -377,7 +412,7 @@ def cases(tier):
            H1(3, 2, 1, 4, False, "none"), H1(1, 3, 2, 4, False, "none", num_steps=2),
            H1(2, 2, 2, 4, False, "stack"), H1(1, 3, 2, 3, True, "ends", num_steps=1),
            H1(1, 2, 2, 4, "out", "none"), H1(1, 2, 2, 3, "in", "none"), H1(2, 2, 1, 4, "out", "prepost")]
-    cs += [H2(2, 2, 2), H4(2), H4(3), H5(3), H5(4), H6(4, False), H6(4, "in"), H6(4, "out"), H6(4, True), H6(3, False, N=3), H7(3), H7(4)]
+    cs += [H2(2, 2, 2), H4(2), H4(3), H5(3), H5(4), H6(4, False), H6(4, "in"), H6(4, "out"), H6(4, True), H6(3, False, N=3), H7(3), H7(4), H8(2, 1), H8(2, 2, trivial=True)]
     cs += [H3(2, None), H3(3, 1)]
     if tier == "thorough":
         # (two rank-4 environments with bond 2 at N=3 do not finish within the per-case wall-clock limit:
